@@ -35,8 +35,11 @@ BaseX1 == [Base(4, 2, 2, 2, 3, 10) EXCEPT !.auxd = <<1, 2>>, !.auxr = 2, !.nauxa
 BaseX2 == [Base(3, 1, 1, 2, 0, 3) EXCEPT !.auxd = <<1>>, !.auxr = 1, !.lag = 1, !.nauxa = 2]
 BaseX3 == [Base(5, 3, 3, 2, 3, 20) EXCEPT !.auxd = <<2, 1, 1>>, !.auxr = 1, !.lag = 1, !.nauxa = 3, !.k = 2, !.ext = 3, !.bits = 62]
 
+\* auxiliary constraints of a higher degree than every main constraint: the number of composition columns and the evaluation
+\* domain are then decided by the auxiliary segment alone
+BaseX4 == [Base(4, 2, 3, 2, 3, 10) EXCEPT !.degs = <<1, 1>>, !.auxd = <<4, 1>>, !.auxr = 2, !.nauxa = 2]
 Init == /\ t \in {Base(3, 1, 1, 2, 0, 3), Base(4, 2, 2, 4, 7, 8), Base(5, 3, 3, 2, 3, 20), Base(6, 8, 3, 8, 31, 12), BaseP, BaseP2, BaseA,
-                  BaseX1, BaseX2, BaseX3}
+                  BaseX1, BaseX2, BaseX3, BaseX4}
         /\ Admissible(t) /\ d = 0
 
 \* change the auxiliary columns, keeping the other auxiliary parameters meaningful for the new columns
@@ -59,7 +62,7 @@ Variants(s) ==
     \cup {[s EXCEPT !.rem = x] : x \in {0, 1, 3, 7, 15, 31, 63, 127, 255}}
     \cup {[s EXCEPT !.ext = x] : x \in 1..3}
     \cup {[s EXCEPT !.bits = x] : x \in {62, 64, 128}}
-    \cup {WithAux(s, x) : x \in {<<>>, <<1>>, <<2>>, <<1, 2>>, <<2, 1>>, <<1, 1, 2, 2, 1>>}}
+    \cup {WithAux(s, x) : x \in {<<>>, <<1>>, <<2>>, <<1, 2>>, <<2, 1>>, <<1, 1, 2, 2, 1>>, <<3>>, <<1, 5>>, <<2 ^ s.lb + 1, 1>>}}
     \cup {[s EXCEPT !.auxr = x] : x \in {0, 1, 2, 5}}
     \cup {[s EXCEPT !.lag = x] : x \in {0, 1}}
     \cup {[s EXCEPT !.nauxa = x] : x \in 1..3}
